@@ -20,3 +20,38 @@ def concat_frames(pkts: "list[tuple[bytes,bytes]]", k: "int") -> "bytes":
     if k >= len(pkts):
         return b""
     return frame(pkts[k][0], pkts[k][1]) + concat_frames(pkts, k + 1)
+
+
+@spec
+def be(v: "int", n: "int") -> "bytes":
+    return int.to_bytes(v, n, "big")
+
+
+@spec
+def bm_bytes(magic: "int", size: "int", aes_rand: "bytes", ansi_cp: "int", oem_cp: "int", bid: "int", pid: "int",
+             port: "int", flag: "int", ver_major: "int", ver_minor: "int", ver_build: "int", ptr_x64: "int",
+             ptr_gmh: "int", ptr_gpa: "int", ip: "int", info: "bytes") -> "bytes":
+    """wire image of BeaconMetadata (big endian), written from the documented layout: 59 fixed bytes + info"""
+    return (be(magic, 4) + be(size, 4) + aes_rand + be(ansi_cp, 2) + be(oem_cp, 2) + be(bid, 4) + be(pid, 4)
+            + be(port, 2) + be(flag, 1) + be(ver_major, 1) + be(ver_minor, 1) + be(ver_build, 2) + be(ptr_x64, 4)
+            + be(ptr_gmh, 4) + be(ptr_gpa, 4) + be(ip, 4) + info)
+
+
+@spec
+def ub(pt: "bytes", a: "int", n: "int") -> "int":
+    """unsigned big-endian integer of the n bytes at offset a"""
+    return int.from_bytes(pt[a:a + n], "big")
+
+
+@spec
+def bm_parse(pt: "bytes", magic: "int", size: "int", aes_rand: "bytes", ansi_cp: "int", oem_cp: "int", bid: "int",
+             pid: "int", port: "int", flag: "int", ver_major: "int", ver_minor: "int", ver_build: "int",
+             ptr_x64: "int", ptr_gmh: "int", ptr_gpa: "int", ip: "int", info: "bytes") -> "bool":
+    """the fields are exactly what the documented layout says about the plaintext pt"""
+    return (len(pt) >= 59 + max(size - 51, 0)
+            and magic == ub(pt, 0, 4) and size == ub(pt, 4, 4) and aes_rand == pt[8:24]
+            and ansi_cp == ub(pt, 24, 2) and oem_cp == ub(pt, 26, 2) and bid == ub(pt, 28, 4) and pid == ub(pt, 32, 4)
+            and port == ub(pt, 36, 2) and flag == ub(pt, 38, 1) and ver_major == ub(pt, 39, 1)
+            and ver_minor == ub(pt, 40, 1) and ver_build == ub(pt, 41, 2) and ptr_x64 == ub(pt, 43, 4)
+            and ptr_gmh == ub(pt, 47, 4) and ptr_gpa == ub(pt, 51, 4) and ip == ub(pt, 55, 4)
+            and info == pt[59:59 + max(size - 51, 0)])
